@@ -18,6 +18,8 @@ FORMULAS = [
     "(", "a &", "[a, b", "exists # a", "exists a #", "a \"c\" b", "٣", "a\x00b", "[a,] < 0", "mu X # (exists X # X)",
     "[a, b] < [a]", "[[a] = 1, b] >= 1", "a nand b nor c", "all a # [a, b] = [b]", "if [a,b]=1 then {x} else -c",
     "ééé & b", "größe | länge", "变量 => b", "exists é # (é & ñandú) | ü",
+    "a & if a then b else c", "a | [a, b] >= 1", "b | [a, b|c] <= [b, c]", "(a & b) | if (a & b) then c else (a & b)", "exists a # [a, a & b] = [a & b]",
+    "position_of_queen_one & -position_of_queen_two | q",
     "(gfp X # X & a) & X", "X & (gfp X # X & a)", "(exists x # (x & a)) & (b | x)", "nu X # ((mu X # (X | a)) & X)", "if a then b else c",
 ]
 ORDERINGS = [None, "a", "b a", "x a", "c b a", "a a b", "z a b", ", ; a", "", "\"c\" a"]
@@ -345,6 +347,7 @@ def model_case(repo, case):
 TABLE_FORMULAS = ORDER_FORMULAS + [
     "false", "true", "a & -a", "a | -a", "[a, b] > 2", "[a, b, c] >= 2", "exists a # a", "-a & -b", "(a & b) | (c & d)",
     "exists x # (x & a) | b", "(exists x # (x & a)) & (b | c)", "(gfp X # X & a) & X", "X & (gfp X # X & a)", "a & (exists b # b | -a)",
+    "position_of_queen_one & -position_of_queen_two | short", "a_very_long_variable_name_indeed ^ a_very_long_variable_name_in_fact",
     "(a | -b) & c", "(a & -b) | c", "(forall q # q | p) & -r", "exists x # (x & (y | z))", "nu X # ((mu X # (X | a)) & X)",
     "exists x # ((forall x # (x | a)) & x)", "[a, b] < 0", "[a] <= 18446744073709551615", "a <= b <= c", "if b then a & c else c",
 ]
@@ -512,6 +515,7 @@ def sweep_table(repo, budget, seed, binary=None, aspect=None):
                         (["-t", "--evaluate=" + f_nl], None, "|", base_table, "multi-line --evaluate"),
                         (["-t", fp2], None, "|", base_table, "multi-line file"), (["-t"], f_nl.encode(), "|", base_table, "multi-line stdin"),
                         (["-v"], f_nl.encode(), ";", v_lines, "-v multi-line stdin"),
+                        (["-t", "-b", "1", "--evaluate=" + f], None, "|", base_table, "-b 1"), (["-v", "-b", "1", fp], None, ";", v_lines, "-v -b 1 file"),
                         (["-t", "-b", "2", "--evaluate=" + f], None, "|", base_table, "-b 2"), (["-t", "-b", "5", fp], None, "|", base_table, "-b 5 file"),
                         (["-v", fp], None, ";", v_lines, "-v file"), (["-v", "-b", "3"], f.encode(), ";", v_lines, "-v -b 3 stdin")]
             for args, stdin, mark, want, label in variants:
